@@ -179,6 +179,11 @@ add("C19",
 # ---------------------------------------------------------------- C03
 LOADER = "dateparser/languages/loader.py"
 add("C03",
+    V("language-table-aliased-and-popped", "C03", [("dateparser/languages/loader.py", "                        shortname, language_info=deepcopy(self._loaded_languages[lang])\n", "                        shortname, language_info=self._loaded_languages[lang]\n"),
+        (LOCALE, "        self.info = combine_dicts(language_info, locale_specific_info)\n", "        if locale_specific_info:\n            self.info = combine_dicts(language_info, locale_specific_info)\n        else:\n            self.info = language_info\n")], "fire", "C03.R7",
+      note="seeded change C05-4: the first plain-language Locale pops 'locale_specific' out of the shared table"),
+    V("twin-loader-without-copy-locale-still-merges", "C03", [("dateparser/languages/loader.py", "                        shortname, language_info=deepcopy(self._loaded_languages[lang])\n", "                        shortname, language_info=self._loaded_languages[lang]\n")], "silent",
+      note="combine_dicts builds a new top-level dict: popping from it does not touch the shared table"),
     V("revert-fix-abbreviations-first-caller", "C03", [(LOCALE, "        # the dictionary depends on the settings (SKIP_TOKENS), so do the abbreviations\n        if settings.registry_key not in self._abbreviations:\n            self._abbreviations[settings.registry_key] = [\n                item for item in dictionary if item.endswith(\".\") and len(item) > 1\n            ]\n        return self._abbreviations[settings.registry_key]\n", "        abbreviations = []\n        if not self._abbreviations:\n            for item in dictionary:\n                if item.endswith(\".\") and len(item) > 1:\n                    abbreviations.append(item)\n            self._abbreviations = abbreviations\n        return self._abbreviations\n")], "fire", "C03.R5",
       note="the abbreviations computed from the first caller's dictionary serve every later caller"),
     V("callers-list-sorted-in-validation", "C03", [(CONF, "    if len(setting_value) != len(set(setting_value)):", "    setting_value.sort()\n    if len(setting_value) != len(set(setting_value)):")], "fire", "C03.R1"),
